@@ -42,6 +42,7 @@ class Gen:
     def __init__(self, rng) -> None:
         self.rng = rng
         self.n = 0
+        self.big = 0.1      # share of the over-long variants (kept low: case size)
 
     # ------------------------------------------------------------ lexical
     def ch(self, xs):
@@ -67,9 +68,9 @@ class Gen:
         if r < 0.8:
             return b'%d' % self.ch([0, 1, 99, 4096, 4097, 2 ** 32 - 1, 2 ** 32, 2 ** 63, 2 ** 64, 10 ** 30])
         if r < 0.87:
-            return b'1' * self.ch([4299, 4300, 4301, 5000])
+            return b'1' * self.ch([4299, 4300, 4301, 5000]) if self.p(self.big) else b'1' * 40
         if r < 0.93:
-            return b'0' * self.ch([1, 5, 4301]) + b'7'
+            return b'0' * (self.ch([1, 5, 4301]) if self.p(self.big) else 3) + b'7'
         return self.ch([b'-1', b'+1', b'1.0', b'1e3', b'0x1', b'', b'\xb2', b'1 '])
 
     def string_of(self, val: bytes, allow_sync: bool = True) -> bytes:
@@ -95,7 +96,7 @@ class Gen:
         if r < 0.9:
             return self.ch([b'\xc3\xa9', b'\xff', b'\xe9', b'\x00', b'a\x00b', b'\r', b'\n', b'a\r\nb', b'\xed\xa0\x80',
                             b'\xf4\x90\x80\x80', b'+AGE-', b'\\u12', b'\\N{x}'])
-        return b'y' * self.ch([63, 64, 100, 4096, 4097])
+        return b'y' * (self.ch([4096, 4097]) if self.p(self.big) else self.ch([63, 64, 100]))
 
     def astring(self, val: bytes | None = None) -> bytes:
         if val is None:
@@ -120,7 +121,7 @@ class Gen:
             return b'%d' % self.rng.randint(1, 8)
         if r < 0.93:
             return b'%d' % self.ch([0, 9, 100, 101, 104, 105, 2 ** 32 - 1, 2 ** 32, 10 ** 20])
-        return self.ch([b'1' * 4301, b'0', b'01', b'-1', b'', b'$'])
+        return self.ch([b'1' * 4301 if self.p(self.big) else b'1' * 30, b'0', b'01', b'-1', b'', b'$'])
 
     def seqset(self) -> bytes:
         parts = []
@@ -194,7 +195,7 @@ class Gen:
     def section(self) -> bytes:
         parts = b'.'.join(b'%d' % self.rng.randint(1, 3) for _ in range(self.ch([0, 0, 1, 2, 3])))
         if self.p(0.04):
-            parts = self.ch([b'0', b'1..2', b'1.', b'.1', b'1 . 2', b'1' * 4301, b'01'])
+            parts = self.ch([b'0', b'1..2', b'1.', b'.1', b'1 . 2', b'1' * (4301 if self.p(self.big) else 20), b'01'])
         r = self.rng.random()
         spec = b''
         if r < 0.5:
@@ -211,8 +212,8 @@ class Gen:
             return b''
         if self.p(0.8):
             return b'<%d.%d>' % (self.rng.randint(0, 50), self.rng.randint(0, 50))
-        return self.ch([b'<0>', b'<0.0>', b'<1.>', b'< 1 . 2 >', b'<-1.2>', b'<1.2', b'<' + b'1' * 4301 + b'.1>',
-                        b'<1.' + b'1' * 4301 + b'>', b'<4294967296.4294967296>', b'<99999999999999999999.5>'])
+        return self.ch([b'<0>', b'<0.0>', b'<1.>', b'< 1 . 2 >', b'<-1.2>', b'<1.2', b'<' + b'1' * (4301 if self.p(self.big) else 25) + b'.1>',
+                        b'<1.' + b'1' * (4301 if self.p(self.big) else 25) + b'>', b'<4294967296.4294967296>', b'<99999999999999999999.5>'])
 
     def fetch_att(self) -> bytes:
         r = self.rng.random()
@@ -317,7 +318,7 @@ class Gen:
             return sp() + b'(' + b' '.join(items) + b')'
         if name == b'LOGIN':
             u = self.ch([b'testuser', b'testuser', b'nobody', b'', b'\xff', b'test user'])
-            pw = self.ch([b'testpass', b'testpass', b'wrong', b'', b'\xff\xfe', b'x' * 5000])
+            pw = self.ch([b'testpass', b'testpass', b'wrong', b'', b'\xff\xfe', b'x' * (5000 if self.p(self.big) else 70)])
             s = sp() + self.astring(u) + sp() + self.astring(pw)
             return s if self.p(0.9) else self.ch([sp() + self.astring(u), s + b' x', b''])
         if name == b'AUTHENTICATE':
